@@ -159,7 +159,11 @@ func (tc *typeConv) ctorFor(t types.Type) *anyCtor {
 		return c
 	}
 	if tc.frozen {
-		panic("any constructor requested after freeze: " + key)
+		// a dynamic type the pre-scan did not see: it is one of the "other" types (no payload)
+		c := &anyCtor{Key: key, Tid: 100 + len(tc.anyCtors)}
+		tc.anyCtors = append(tc.anyCtors, c)
+		tc.anyByKey[key] = c
+		return c
 	}
 	c := &anyCtor{Key: key}
 	payload := false
